@@ -330,6 +330,9 @@ namespace bluetoe {
             void lesc_handle_pairing_dhkey_check( const std::uint8_t* input, std::size_t in_size, std::uint8_t* output, std::size_t& out_size, Connection& );
 
             template < class Connection >
+            void lesc_check_dhkey_and_complete_pairing( const std::uint8_t* remote_dhkey_check, std::uint8_t* output, std::size_t& out_size, Connection& );
+
+            template < class Connection >
             bool lesc_security_manager_output_available( Connection& ) const;
 
             template < class Connection >
@@ -973,6 +976,8 @@ namespace bluetoe {
 
         if ( state.state() == details::sm_pairing_state::user_response_wait )
         {
+            // keep Ea, to have it verified, once the user responded
+            state.remote_dhkey_check( &input[ 1 ] );
             out_size = 0;
         }
         else if ( state.state() == details::sm_pairing_state::user_response_failed )
@@ -981,36 +986,45 @@ namespace bluetoe {
         }
         else
         {
-            const details::ecdh_shared_secret_t dh_key = security_functions().p256( state.local_private_key(), state.remote_public_key() );
-
-            details::uint128_t mac_key;
-            details::uint128_t ltk;
-            static const details::uint128_t zero = {{ 0 }};
-
-            std::tie( mac_key, ltk ) = security_functions().f5( dh_key, state.remote_nonce(), state.local_nonce(), state.remote_address(), security_functions().local_address() );
-
-            const auto calc_ea = security_functions().f6( mac_key, state.remote_nonce(), state.local_nonce(), zero, state.remote_io_caps(), state.remote_address(), security_functions().local_address() );
-
-            if ( !std::equal( calc_ea.begin(), calc_ea.end(), &input[ 1 ] ) )
-                return this->error_response( details::sm_error_codes::dhkey_check_failed, output, out_size, state );
-
-            const auto eb = security_functions().f6( mac_key, state.local_nonce(), state.remote_nonce(), zero, lesc_local_io_caps(), security_functions().local_address(), state.remote_address() );
-
-            out_size = pairing_dhkey_check_size;
-            output[ 0 ] = static_cast< std::uint8_t >( details::sm_opcodes::pairing_dhkey_check );
-            std::copy( eb.begin(), eb.end(), &output[ 1 ] );
-
-            state.lesc_pairing_completed( ltk );
-            state.store_lesc_key_in_bond_db( ltk, state );
+            lesc_check_dhkey_and_complete_pairing( &input[ 1 ], output, out_size, state );
         }
+    }
+
+    template < typename SecurityFunctions, template < class OtherConnectionData > class ConnectionData, typename ... Options >
+    template < class Connection >
+    void details::security_manager_base< SecurityFunctions, ConnectionData, Options... >::lesc_check_dhkey_and_complete_pairing( const std::uint8_t* remote_dhkey_check, std::uint8_t* output, std::size_t& out_size, Connection& state )
+    {
+        const details::ecdh_shared_secret_t dh_key = security_functions().p256( state.local_private_key(), state.remote_public_key() );
+
+        details::uint128_t mac_key;
+        details::uint128_t ltk;
+        static const details::uint128_t zero = {{ 0 }};
+
+        std::tie( mac_key, ltk ) = security_functions().f5( dh_key, state.remote_nonce(), state.local_nonce(), state.remote_address(), security_functions().local_address() );
+
+        const auto calc_ea = security_functions().f6( mac_key, state.remote_nonce(), state.local_nonce(), zero, state.remote_io_caps(), state.remote_address(), security_functions().local_address() );
+
+        if ( !std::equal( calc_ea.begin(), calc_ea.end(), remote_dhkey_check ) )
+            return this->error_response( details::sm_error_codes::dhkey_check_failed, output, out_size, state );
+
+        const auto eb = security_functions().f6( mac_key, state.local_nonce(), state.remote_nonce(), zero, lesc_local_io_caps(), security_functions().local_address(), state.remote_address() );
+
+        out_size = pairing_dhkey_check_size;
+        output[ 0 ] = static_cast< std::uint8_t >( details::sm_opcodes::pairing_dhkey_check );
+        std::copy( eb.begin(), eb.end(), &output[ 1 ] );
+
+        state.lesc_pairing_completed( ltk );
+        state.store_lesc_key_in_bond_db( ltk, state );
     }
 
     template < typename SecurityFunctions, template < class OtherConnectionData > class ConnectionData, typename ... Options >
     template < class Connection >
     bool details::security_manager_base< SecurityFunctions, ConnectionData, Options... >::lesc_security_manager_output_available( Connection& state ) const
     {
+        // after a positive user response, the DHKey check can only be send, once the DHKey check
+        // of the central was received
         return state.state() == details::sm_pairing_state::lesc_public_keys_exchanged
-            || state.state() == details::sm_pairing_state::user_response_success
+            || ( state.state() == details::sm_pairing_state::user_response_success && state.remote_dhkey_check_received() )
             || state.state() == details::sm_pairing_state::user_response_failed;
     }
 
@@ -1036,21 +1050,8 @@ namespace bluetoe {
         }
         else if ( state.state() == details::sm_pairing_state::user_response_success )
         {
-            const details::ecdh_shared_secret_t dh_key = security_functions().p256( state.local_private_key(), state.remote_public_key() );
-
-            details::uint128_t mac_key;
-            details::uint128_t ltk;
-            static const details::uint128_t zero = {{ 0 }};
-
-            std::tie( mac_key, ltk ) = security_functions().f5( dh_key, state.remote_nonce(), state.local_nonce(), state.remote_address(), security_functions().local_address() );
-            const auto eb = security_functions().f6( mac_key, state.local_nonce(), state.remote_nonce(), zero, this->lesc_local_io_caps(), security_functions().local_address(), state.remote_address() );
-
-            out_size = this->pairing_dhkey_check_size;
-            output[ 0 ] = static_cast< std::uint8_t >( details::sm_opcodes::pairing_dhkey_check );
-            std::copy( eb.begin(), eb.end(), &output[ 1 ] );
-
-            state.lesc_pairing_completed( ltk );
-            state.store_lesc_key_in_bond_db( ltk, state );
+            // Ea was received, while waiting for the user response
+            lesc_check_dhkey_and_complete_pairing( state.remote_dhkey_check().data(), output, out_size, state );
         }
         else
         {
